@@ -118,3 +118,12 @@ impl DiagnosticMessage for Error {
         }
     }
 }
+
+#[cfg(vrl_verif)]
+impl Return {
+    /// verification hook: the returned expression.
+    #[must_use]
+    pub fn verif_expr(&self) -> &Expr {
+        &self.expr
+    }
+}
